@@ -274,6 +274,15 @@ var c08First = []struct{ name, patch string }{
 	{"unwrap-funclit", "@@\n@@\n-trace(func() {\n-  ...\n-})\n+second(1)\n"},
 	{"delete-func", "@@\n@@\n-func helper() {\n-  ...\n-}\n"},
 	{"rename-keeps", "@@\n@@\n-cond\n+cond2\n"},
+	// an expression change also reaches the literals and names of the import
+	// declarations; what it leaves there is what the next change's import
+	// machinery has to cope with
+	{"string-lit-to-number", "@@\n@@\n-\"os\"\n+42\n"},
+	{"string-lit-to-call", "@@\n@@\n-\"os\"\n+name()\n"},
+	{"string-lit-to-empty", "@@\n@@\n-\"os\"\n+\"\"\n"},
+	{"string-lit-to-raw", "@@\n@@\n-\"os\"\n+`vf/raw`\n"},
+	{"string-lit-to-char", "@@\n@@\n-\"os\"\n+'o'\n"},
+	{"ident-os-to-call", "@@\n@@\n-os\n+pkg()\n"},
 }
 
 var c08Second = []struct{ name, patch string }{
